@@ -245,6 +245,8 @@ class MultiSet(OpUnit):
 
     def __init__(self, k, kr, untyped=None, dup_resp=False):
         self.k, self.kr, self.untyped, self.dup_resp = k, kr, untyped, dup_resp
+        if untyped is not None:
+            self.props = ("C04",)      # nothing is sent: no obligation at the seam
         self.name = "Client.multiset[k=%d,resp=%d%s%s]" % (k, kr, ",untyped@%d" % untyped if untyped is not None else "",
                                                            ",resp-oids-may-repeat" if dup_resp else "")
 
